@@ -47,3 +47,13 @@ Theorem C03_code_law_of_motion : forall (E : sim_env),
                                                      (e_params E) (sim_draw_keys E t)).
 Proof. intros E. split; [exact (bundled_initial_states E)|exact (bundled_law_of_motion E)]. Qed.
 Print Assumptions C03_code_law_of_motion.
+
+(* ---- about the regenerated stochastic weight function (Gen/WeightFunc.v) ------------------------- *)
+From LCM Require Import Gen.WeightFunc Proofs.C03_WeightFunc.
+(* the row of transition probabilities the code reads for a stochastic state is the row the            *)
+(* specification selects: indexed by the dependencies' labels in the next function's signature order   *)
+Theorem C03_code_weight_row_is_the_specifications : forall m p e s f a,
+  find_fun m ("next_" ++ s) = Some f -> assoc s (shocks p) = Some a ->
+  weight_func (fargs f) a e = weight_row m p e s.
+Proof. exact weight_func_is_spec_weight_row. Qed.
+Print Assumptions C03_code_weight_row_is_the_specifications.
